@@ -599,9 +599,9 @@ class StmtMixin:
         if moved:
             new = {k: v for k, v in fn.loops.items() if k not in moved}
             for k, nk in moved.items():
-                if nk in new:
+                if nk in new and new[nk] is not fn.loops[k]:
                     raise Unsupported(f"loop anchors of {fn.fqn} collide after a change of shape (ordinal {k} -> {nk})")
-                new[nk] = fn.loops[k]
+                new[nk] = fn.loops[k]        # (two ordinals sharing ONE contract object may land on the same loop)
             fn.loops = new
 
     def ex_While(self, s, p):
